@@ -79,6 +79,14 @@ class Session:
         self.deposit = F(float(Fraction(case.get("deposit", "100000"))))
         self.broker = Broker(self.ex, self.cash_c, float(self.deposit),
                              BrokerFees(float(markup), self.rate, float(prop), float(fixed)))
+        # another account on the same Exchange object (a benchmark / second client): it trades the same contracts and is
+        # valued right before or right after the account under test; nothing it does changes what the property says
+        # about the account under test (it does not move quotes)
+        self.shadow = None
+        if case.get("shadow"):
+            self.shadow = Broker(self.ex, self.cash_c, float(self.deposit) * 3 + 1000.0,
+                                 BrokerFees(0.0, self.rate, 0.0005, 1.0))
+            run.tags.add("second-account-on-exchange")
         t0 = from_us(case.get("t0", T0))
         self.ex.process_EventNBBO(EventNBBO(t0, self.cash_c, 1.0, 1.0))
         r0 = float(Fraction(case.get("rate0", "0")))
@@ -186,13 +194,44 @@ class Session:
         self.lcomm += self.fixed + abs(px * qty * m) * self.prop
 
     # ------------------------------------------------------------------ ops
+    @staticmethod
+    def req_key(op):
+        return (op[2], op[3], op[4], op[5], tuple(sorted(op[6].items())))
+
+    def shadow_look(self, op, when):
+        """what the second account does around an operation of the account under test"""
+        from tradingenv.broker.trade import Trade
+
+        sh, mode = self.shadow, self.case.get("shadow")
+        if sh is None or (mode != "both" and mode != when):
+            return
+        kind = op[0]
+        try:
+            if kind in ("tradeq", "trade") and when == "before":
+                # takes the other side of half the size, at the book's quotes
+                obj = self.objs[op[1]]
+                qty = -float(Fraction(op[2])) / 2 if op[2] != "nan" else 0.0
+                bid, ask = self.ex[obj].bid_price, self.ex[obj].ask_price
+                if qty:
+                    sh.transact(Trade(from_us(op[-1]) if isinstance(op[-1], int) else from_us(T0), obj, qty, bid, ask, sh.fees))
+            if kind in ("mark", "markall", "nlv", "values", "weights", "rebal", "context", "tradeq", "trade"):
+                sh.net_liquidation_value(False)
+        except Exception:  # noqa  (whatever happens to the other account is not what is being judged)
+            pass
+
     def do(self, op):
+        o = self._do(op)
+        self.shadow_look(op, "after")
+        return o
+
+    def _do(self, op):
         from tradingenv.broker.rebalancing import Rebalancing
         from tradingenv.broker.trade import Trade
         from tradingenv.events import EventContractDiscontinued, EventNBBO
 
         r, kind = self.r, op[0]
         o = dict(op=op)
+        self.shadow_look(op, "before")
         if kind == "q":
             _, k, t, b, a = op
             fb = float("nan") if b == "nan" else float(Fraction(b))
@@ -291,6 +330,15 @@ class Session:
             keys = list(tgt)
             objs = [self.cash_c if k == "USD" else self.objs[k] for k in keys]
             vals = [float(Fraction(tgt[k])) for k in keys]
+            # the form in which the caller hands over the allocation (what a policy network or a config table produces)
+            form = self.case.get("alloc_form")
+            alloc_arg = vals
+            if form:
+                import numpy as _np
+                alloc_arg = {"f32": [_np.float32(v) for v in vals], "f32arr": _np.array(vals, dtype=_np.float32),
+                             "np64": [_np.float64(v) for v in vals], "arr": _np.array(vals, dtype=float),
+                             "tuple": tuple(vals)}[form]
+                r.tags.add("allocation-form-" + form)
             fmg = float(Fraction(mg))
             probe_trades = ...
             if self.case.get("probe_make_trades"):
@@ -301,7 +349,7 @@ class Session:
                 self.do(["nlv", 0])
                 snap = (self.state(), len(self.broker.track_record))
                 try:
-                    probe = Rebalancing(contracts=objs, allocation=vals, measure="weight" if bw else "nr-contracts",
+                    probe = Rebalancing(contracts=objs, allocation=alloc_arg, measure="weight" if bw else "nr-contracts",
                                         absolute=bool(ab), fractional=bool(frac), margin=fmg, time=self.when(t))
                     probe_trades = [(self.sym(tr_.contract), F(tr_.quantity)) for tr_ in probe.make_trades(self.broker)]
                 except Exception:  # noqa  (a request the library refuses: the rebalance below is refused too)
@@ -317,7 +365,7 @@ class Session:
                 # the request object is previewed (`make_trades`, as the docstring of Broker.rebalance advertises), the
                 # market then moves, and the *same* object is executed: the trades must be those of the moment of execution
                 try:
-                    previewed = Rebalancing(contracts=objs, allocation=vals, measure="weight" if bw else "nr-contracts",
+                    previewed = Rebalancing(contracts=objs, allocation=alloc_arg, measure="weight" if bw else "nr-contracts",
                                             absolute=bool(ab), fractional=bool(frac), margin=fmg, time=self.when(t))
                     self.do(["nlv", 0])
                     previewed.make_trades(self.broker)
@@ -327,11 +375,25 @@ class Session:
                 n_before = len(self.broker.track_record)
                 pos_before = dict(self.state()[1])
 
+            kept = getattr(self, "kept_requests", {}).pop(self.req_key(op), None)
+            if kept is not None and previewed is None:
+                # the request object that the other account executed earlier is now sent to the account under test
+                kept.time = self.when(t)
+                previewed = kept
+                r.tags.add("request-object-reused")
+
             def go():
                 reb = previewed if previewed is not None else Rebalancing(
-                    contracts=objs, allocation=vals, measure="weight" if bw else "nr-contracts",
+                    contracts=objs, allocation=alloc_arg, measure="weight" if bw else "nr-contracts",
                     absolute=bool(ab), fractional=bool(frac), margin=fmg, time=self.when(t))
                 self._reb = reb
+                if self.shadow is not None and self.case.get("shadow_reuse"):
+                    # the same request object is first sent to the other account (comparing accounts / fee schedules),
+                    # then to the account under test: the trades must be those of *this* account at this moment
+                    try:
+                        self.shadow.rebalance(reb)
+                    except Exception:  # noqa
+                        pass
                 self.broker.rebalance(reb)
                 return reb
 
@@ -376,6 +438,24 @@ class Session:
                      pos_before=pos_before, reb=reb if st == "ok" else None, exp_nlv_pre=exp_pre,
                      nlv_pre=F(reb.context_pre.nlv) if reb is not None and hasattr(reb.context_pre, "nlv") else None,
                      nlv_post=F(reb.context_post.nlv) if st == "ok" else None, valued=(st == "ok"))
+        elif kind == "shadow_rebal":
+            # the *other* account executes a request now; the object is kept and later sent to the account under test by
+            # the `rebal` op with the same parameters. Not modelled (nothing about the account under test changes).
+            _, t, bw, ab, frac, mg, tgt = op[:7]
+            if self.shadow is not None:
+                try:
+                    keys_ = list(tgt)
+                    req = Rebalancing(contracts=[self.cash_c if k == "USD" else self.objs[k] for k in keys_],
+                                      allocation=[float(Fraction(tgt[k])) for k in keys_],
+                                      measure="weight" if bw else "nr-contracts", absolute=bool(ab), fractional=bool(frac),
+                                      margin=float(Fraction(mg)), time=self.when(t))
+                    self.shadow.rebalance(req)
+                    if not hasattr(self, "kept_requests"):
+                        self.kept_requests = {}
+                    self.kept_requests[self.req_key(op)] = req
+                except Exception:  # noqa
+                    pass
+            o["status"] = "ok"
         else:
             raise ValueError(f"unknown op {op}")
         self.bump_scale()
@@ -445,7 +525,10 @@ HISTORY_RULE = (" Histories also contain: several operations with one timestamp 
                 "price moves of a few parts per million; one-sided books that still quote the side needed to liquidate the "
                 "position held; trades of a few 1e-8 contracts on top of a known position; Broker.context() snapshots; "
                 "requests previewed with make_trades(), a quote move, then the same request object executed; histories in "
-                "which the epsilon snap fires on more than rounding dust are skipped and counted (K1).")
+                "which the epsilon snap fires on more than rounding dust are skipped and counted (K1). In a fifth of the histories a "
+                "second account lives on the same Exchange object, trades the same contracts and is valued right before / "
+                "after the account under test; in half of those a rebalancing request object is first sent to that other "
+                "account and then to the account under test.")
 
 
 def gen_history(rng, tier="quick", exact=None, allow=None, fees=None, nmax=None, one_sided=True):
@@ -551,7 +634,12 @@ def gen_history(rng, tier="quick", exact=None, allow=None, fees=None, nmax=None,
         else:
             ops.append(["nlv", 0])
     ops.append(["nlv", 0])
-    return dict(contracts=contracts, fees=fees, deposit=deposit, exact=exact, ops=ops)
+    case = dict(contracts=contracts, fees=fees, deposit=deposit, exact=exact, ops=ops)
+    if rng.random() < 0.2:
+        # a second account lives on the same Exchange object
+        case["shadow"] = rng.choice(["before", "after", "both"])
+        case["shadow_reuse"] = rng.random() < 0.5
+    return case
 
 
 def small_scope_histories(max_len=4):
